@@ -144,6 +144,65 @@ theorem q2dTermB_dt (d : Der R) (hh : d.D (Num.ofFrac 1 2 : R) = 0) (h25 : d.D (
   push_cast
   ring
 
+/-- the sag term of one azimuthal order in `q2dSagFrom` is the first component of `q2dTermB` over the changed bases -/
+theorem sag_term_eq (fq gq : Nat → Nat → R) (cosm sinm : Nat → R) (u : R) (m : Nat) (a b : List R) :
+    Num.npow u m * (cosm m * q2dRadial (fq m) (gq m) m a (u * u) + sinm m * q2dRadial (fq m) (gq m) m b (u * u))
+      = (q2dTermB (q2dFam m) m (cosm m) (sinm m) (cobQ2d (fq m) (gq m) 0 a) (cobQ2d (fq m) (gq m) 0 b) u).1 := rfl
+
+theorem q2dRadial_nil (f g : Nat → R) (m : Nat) (x : R) : q2dRadial f g m [] x = 0 := by
+  simp [q2dRadial, clenshawQ2d, cobQ2d, alphas, q2dRead]
+
+/-- **list level, radial and azimuthal**: the slopes `compute_z_zprime_Q2d` accumulates over all azimuthal orders
+(`q2dSlopeFrom`) are the derivatives of the sag it accumulates (`q2dSagFrom`), for every combination of present / absent /
+empty cosine and sine lists.  `Dr` is `∂/∂u` (`cos(mt)`, `sin(mt)` constant), `Dt` is `∂/∂t` (`u` constant). -/
+theorem q2dSlopeFrom_correct (dr dt : Der R)
+    (hh : dr.D (Num.ofFrac 1 2 : R) = 0) (h25 : dr.D (Num.ofFrac 2 5 : R) = 0)
+    (hh' : dt.D (Num.ofFrac 1 2 : R) = 0) (h25' : dt.D (Num.ofFrac 2 5 : R) = 0)
+    (fq gq : Nat → Nat → R) (cosm sinm : Nat → R) (u : R)
+    (hG : ∀ m, ConstFam dr (q2dFam (K := R) m)) (hG' : ∀ m, ConstFam dt (q2dFam (K := R) m))
+    (hu : dr.D u = 1) (hc : ∀ m, dr.D (cosm m) = 0) (hs : ∀ m, dr.D (sinm m) = 0)
+    (hu' : dt.D u = 0) (hc' : ∀ m, dt.D (cosm m) = -(m : R) * sinm m) (hs' : ∀ m, dt.D (sinm m) = (m : R) * cosm m)
+    (hcob : ∀ (m : Nat) (l : List R), ∀ t ∈ cobQ2d (fq m) (gq m) 0 l, dr.D t = 0 ∧ dt.D t = 0)
+    (ams bms : List (List R)) : ∀ m, 1 ≤ m →
+    (q2dSlopeFrom fq gq cosm sinm u m ams bms).1 = dr.D (q2dSagFrom fq gq cosm sinm u m ams bms) ∧
+    (q2dSlopeFrom fq gq cosm sinm u m ams bms).2 = dt.D (q2dSagFrom fq gq cosm sinm u m ams bms) := by
+  have term : ∀ (m : Nat), 1 ≤ m → ∀ a b : List R,
+      (q2dSlopeTerm fq gq cosm sinm u m a b).1
+          = dr.D (Num.npow u m * (cosm m * q2dRadial (fq m) (gq m) m a (u * u) + sinm m * q2dRadial (fq m) (gq m) m b (u * u))) ∧
+      (q2dSlopeTerm fq gq cosm sinm u m a b).2
+          = dt.D (Num.npow u m * (cosm m * q2dRadial (fq m) (gq m) m a (u * u) + sinm m * q2dRadial (fq m) (gq m) m b (u * u))) := by
+    intro m hm a b
+    rw [sag_term_eq]
+    constructor
+    · exact q2dTermB_dr dr hh h25 (q2dFam m) (hG m) m hm (cosm m) (sinm m) u (hc m) (hs m) hu _ _
+        (fun t ht => (hcob m a t ht).1) (fun t ht => (hcob m b t ht).1)
+    · exact q2dTermB_dt dt hh' h25' (q2dFam m) (hG' m) m (cosm m) (sinm m) u (hc' m) (hs' m) hu' _ _
+        (fun t ht => (hcob m a t ht).2) (fun t ht => (hcob m b t ht).2)
+  induction ams generalizing bms with
+  | nil =>
+    induction bms with
+    | nil => intro m _; simp [q2dSlopeFrom, q2dSagFrom, dr.map_zero, dt.map_zero]
+    | cons b bs ihb =>
+      intro m hm
+      obtain ⟨i1, i2⟩ := ihb (m+1) (by omega)
+      obtain ⟨t1, t2⟩ := term m hm [] b
+      simp only [q2dSlopeFrom, q2dSagFrom, i1, i2, t1, t2, q2dRadial_nil, dr.map_add, dt.map_add]
+      constructor <;> (congr 2; simp)
+  | cons a as iha =>
+    cases bms with
+    | nil =>
+      intro m hm
+      obtain ⟨i1, i2⟩ := iha [] (m+1) (by omega)
+      obtain ⟨t1, t2⟩ := term m hm a []
+      simp only [q2dSlopeFrom, q2dSagFrom, i1, i2, t1, t2, q2dRadial_nil, dr.map_add, dt.map_add]
+      constructor <;> (congr 2; simp)
+    | cons b bs =>
+      intro m hm
+      obtain ⟨i1, i2⟩ := iha bs (m+1) (by omega)
+      obtain ⟨t1, t2⟩ := term m hm a b
+      simp only [q2dSlopeFrom, q2dSagFrom, i1, i2, t1, t2, dr.map_add, dt.map_add]
+      trivial
+
 /-- **Zernike, radial assembly** (`zernike_nm_der`): with `v = R(2r² - 1)` whose `r`-derivative is `4r · R'`
 (chain rule; `R'` is what `jacobi_der` returns), `d/dr [r^k · v] = v · k r^{k-1} + r^k · (4r R')` -/
 theorem zernike_radial_rule (d : Der R) (r v jd : R) (hr : d.D r = 1) (hv : d.D v = 4 * r * jd) (k : Nat) :
